@@ -599,6 +599,22 @@ def rule_wrongpw(ctx, f):
     ctx.floor("C06-G3", len(inv), 3, "InvalidPassword construction sites in from_password")
 
 
+def rule_no_retry(ctx, f):
+    ctx.rule("C06-G4", "a rejected password is final: a load enters the document loader once, with the caller's password (no second attempt with another - e.g. the "
+             "empty - password after InvalidPassword),)")
+    n = 0
+    for b in f.bodies.values():
+        if b["kind"] == "Closure":
+            continue
+        ld = [(bi, t) for bb in f.with_closures(b["id"]) for bi, t in F.calls(bb) if last_seg(F.callee_name(t)) in ("load_storage_and_trailer_password", "load_storage_and_trailer")
+              and "Storage" in F.callee_name(t)]
+        if not ld or last_seg(b["id"]).startswith("load_storage_and_trailer"):
+            continue
+        n += 1
+        ctx.check(len(ld) == 1, "C06-G4", b["id"] + "#one-attempt", "%s enters the document loader %d times: after a wrong password another one is tried, so a wrong password opens the "
+                  "document" % (b["id"], len(ld)), ld[-1][1]["span"], detail="one call of load_storage_and_trailer_password(password)")
+    ctx.floor("C06-G4", n, 1, "bodies that start a load")
+
 def rule_table(ctx, f):
     ctx.rule("C06-TABLE", "accepted /V values are {1,2,4,5,6}, revisions 2..6; the name->CryptMethod table reads None, V2, AESV2, AESV3")
     b = f.body("crypt::Decoder::from_password")
@@ -792,6 +808,7 @@ def run(ctx):
     rule_exempt(ctx, f)
     rule_identity(ctx, f)
     rule_wrongpw(ctx, f)
+    rule_no_retry(ctx, f)
     rule_table(ctx, f)
     rule_padding(ctx, f)
     rule_pw_pad(ctx, f)
